@@ -234,6 +234,44 @@ func H_ReceiverAfterIntercept() {
 	}
 }
 
+const classD = "定义T：\n    其数设为0\n    其字设为“甲”\n    其典设为【子 = 1】\n    其表设为【1】\n    如何动？\n        输入D\n        以其数（自增：D）\n        以其典（写入：“丑”、D）\n        以其表（后增：D）\n        输出 0\n"
+
+// H_DefaultsPerObject: every object gets its own copy of each default
+// property - number, text, dictionary, list - also when a property is changed
+// in place (自增, 写入, 后增) instead of being assigned.
+func H_DefaultsPerObject() {
+	d := zv.Float64("D")
+	zv.Assume(d == d && d-d == 0 && d != 0)
+	order := zv.Choose(2) // second object created before / after the change
+	probe := zv.Choose(4)
+	src := "输入D\n" + classD + "令甲 = （新建T）\n"
+	if order == 0 {
+		src += "令乙 = （新建T）\n以甲（动：D）\n"
+	} else {
+		src += "以甲（动：D）\n令乙 = （新建T）\n"
+	}
+	switch probe {
+	case 0:
+		src += "输出 乙之数"
+	case 1:
+		src += "输出 乙之典之数目"
+	case 2:
+		src += "输出 乙之表之长度"
+	default:
+		src += "输出 甲之数"
+	}
+	res, err, p := run(src, r.ElementMap{"D": value.NewNumber(d)})
+	zv.Assert(p == nil && err == nil, "defaults per object: runs\n"+src)
+	switch probe {
+	case 0:
+		zv.Assert(isNum(res, 0), "a numeric default changed in place through one object is unchanged in another")
+	case 1, 2:
+		zv.Assert(isNum(res, 1), "a dictionary / list default changed in place through one object is unchanged in another")
+	default:
+		zv.Assert(isNum(res, 0+d), "the object itself sees its change")
+	}
+}
+
 // W_Witness: vacuity guard.
 func W_Witness() {
 	a := zv.Float64("A")
